@@ -284,6 +284,7 @@ def _mk_leaves():
     add(LiteralLeaf("Lit1s1", 'Literal["1", 1]', ["1", 1]))
     add(LiteralLeaf("LitMix", 'Literal[True, "x", None]', [True, "x", None]))
     add(LiteralLeaf("Lit0T", "Literal[0, True]", [0, True]))
+    add(LiteralLeaf("Lit1T", "Literal[1, True]", [1, True]))  # members that are EQUAL across classes (1 == True)
 
     def struct(name, ctor, hashable=False):
         def vals(ns):
@@ -339,6 +340,14 @@ def _mk_leaves():
     tditems._required = ("items", "b")
     tditems.fields = (("items", L["int"]), ("b", L["str"]))
     add(tditems)
+    tdund = struct("TDund", lambda c, a, b: {"_a": decimal.Decimal(a), "b": b})
+    tdund._cls = dict
+    tdund._required = ("_a", "b")
+    tdund.fields = (("_a", L["Decimal"]), ("b", L["str"]))
+    add(tdund)
+    tdte = struct("TDte", lambda c, a, b: {"a": a, "b": b})
+    tdte._cls = dict
+    add(tdte)
     _orig = tdnr._vals
 
     def tdnr_vals(ns):
